@@ -169,11 +169,17 @@ class Engine:
         self.pc.append(cond if choice else z3.Not(cond))
         return choice
 
-    def concretize_int(self, term):
+    def concretize_int(self, term, cap=None):
+        """solver-guided case split over the values of an integer term (one path per value);
+        with cap=N the N+1-th distinct value ends the path as unsupported (reported inconclusive)"""
         s = z3.simplify(term)
         if z3.is_int_value(s):
             return s.as_long()
+        tried = 0
         while True:
+            if cap is not None and tried >= cap:
+                raise Unsupported(f"value enumeration of an integer term stopped after {cap} values")
+            tried += 1
             sl = z3.Solver()
             sl.set("timeout", self.timeout_ms)
             for c in self._slice(term == z3.FreshInt("cz")):
